@@ -47,6 +47,8 @@ UNIT_HARNESS = {
     'totext': ('io_harness.rs', 'totext'),
     'misc': ('io_harness.rs', 'misc'),
     'au': ('io_harness.rs', 'audec'),
+    # derive users of hooks/syncx_blocks.rs (the file is prepended to the harness: same module, private fields visible)
+    'syncx': ('syncx_harness.rs', 'syncx'),
     'sigmf': ('io_harness.rs', 'sigmf'),
     'io': ('io_harness.rs', 'il2p,s2pdu,wpcr'),
 }
@@ -91,7 +93,11 @@ def run(units, repo='/repo', depth=None, n=None, seed=None, timeout=600):
             name = 'verif_bx_' + h.replace('_harness.rs', '')
             dst = os.path.join(SRC, 'tests', name + '.rs')
             with open(os.path.join(VERIF, 'bx', h)) as f:
-                open(dst, 'w').write(f.read())
+                text = f.read()
+            if h == 'syncx_harness.rs':
+                text = open(os.path.join(VERIF, 'hooks', 'syncx_blocks.rs')).read() + '\n' + text
+            if not os.path.exists(dst) or open(dst).read() != text:
+                open(dst, 'w').write(text)
             env['BX_TARGETS'] = ','.join(targets)
             cmd = ['cargo', 'test', '--offline', '--test', name, '--', '--nocapture', '--test-threads', '1']
             res.cmd += ('; ' if res.cmd else '') + 'BX_TARGETS=%s ' % env['BX_TARGETS'] + ' '.join(cmd)
